@@ -64,3 +64,13 @@ pub proof fn lemma_somes_subst(ch: Seq<SyntaxNode>, outs: Seq<Option<Substvar>>)
 {
     if ch.len() > 0 { lemma_somes_subst(ch.drop_last(), outs.drop_last()); }
 }
+// ---- C14, conversion clause: the lossy value made from a lossless relation is what the accessors report -----------------------
+pub open spec fn lossy_view(r: lossy::Relation) -> RelV {
+    RelV {
+        name: r.name@,
+        archqual: match r.archqual { Some(q) => Some(q@), None => None },
+        version: r.version,
+        archs: match r.architectures { Some(a) => Some(strs_view(a@)), None => None },
+        profiles: groups_view(r.profiles@),
+    }
+}
